@@ -9,7 +9,11 @@ FAMILY = dict(send_units=1,  # C13_gs3_send_bound: the data request is paid for 
               "per section), section marker bytes, 1-30 splitnum packets, challenge 0 / negative / boundary values; two cases "
               "in three carry 1-6 field sections the client has no place for (Spec.Extra: kills_, time_on_, clan_, honor_t, "
               "_ ... at random positions of the layout, row offsets 0-255, 0-28 values incl. typed field names and values "
-              "with underscores) - tag THM = inside the domain of C04_gs3_query_extra (Spec.wfX); damaged cases incl. "
+              "with underscores); one case in two is a reply whose packets END INSIDE VALUE LISTS (Spec.ConfigC built by "
+              "Spec.cutLayout: player, team and extra sections cut after the first value / in the middle / before the last / "
+              "several times, the next packet continuing the field under its id and the offset of its first value; up to 12 cut "
+              "points per reply; tags NCUT, CUTK = open player,team,extra sections, CONT) - tag THM = inside the domain of "
+              "C04_gs3_query_cut (Spec.wfC); damaged cases incl. "
               "sections that are not allowed extra sections (score_total_, an empty value in the middle); every fourth "
               "case is query_vars"),
 )
@@ -103,8 +107,8 @@ def c10_build(valid, unit, v, r, new_id):
 
 def c10_plan_request(valid, unit, v, r):
     """model-driver request for the SPEC's plan script of this (base, stage, vector, r) — see props/families/valve.py;
-    theorems C10_gs3_query_* (Props/C10_gs3_whole.lean), stated over ConfigX / wfX: replies with any allowed extra field
-    sections, which is what `gen gs3` draws — every well-formed base is in the theorems' domain.  Only for cases straight
+    theorems C10_gs3_query_*_cut (Props/C10_gs3_whole.lean), stated over ConfigC / wfC: replies with any allowed extra
+    field sections whose packets may end inside value lists, which is what `gen gs3` draws — every well-formed base is in the theorems' domain.  Only for cases straight
     from `gen gs3`."""
     import re
     m = re.fullmatch(r"g(\d+)_(\d+)", valid.id)
